@@ -387,12 +387,17 @@ func main() {
 				Fixed  uint64   `json:"range_fixed"`
 				N      int      `json:"range_n"`
 				State  string   `json:"register_state"`
+				Hist   []string `json:"history_ops"`
 			} `json:"cases"`
 		}
 		if err := json.Unmarshal(raw, &rf); err != nil {
 			vh.Die("bad replay file: %v", err)
 		}
 		for _, c := range rf.Cases {
+			if len(c.Hist) > 0 { // a history over several counters
+				runHistory(rep, c.Hist, add, fail)
+				continue
+			}
 			if c.P == 0 {
 				continue
 			}
@@ -460,6 +465,8 @@ func main() {
 	if env.Replay == "" {
 		sampleEstimates(env, rep, rng, fail)
 		largeCardinalities(env, rep, rng, add, fail)
+		historySection(env, rep, rng, add, fail)
+		hashSection(env, rep, rng, add, fail)
 		d30Witness(rep, invOK, fail)
 		if invOK {
 			linearSweep(env, rep, add, fail)
@@ -1299,6 +1306,12 @@ func classify(rep *vh.Report, pe pending, got string) {
 			return
 		}
 		rep.Fail("correspondence", "offer:model-answer", "unexpected model answer", map[string]interface{}{"line": short(pe.line), "model": short(got)})
+	case "HIST":
+		rep.Fail("correspondence", "history:differs-from-model", "the counters after a history over several counters differ from the model (Golib.HLL.Heap)",
+			map[string]interface{}{"history_ops": pe.info, "implementation": short(pe.want), "model": short(got)})
+	case "MH":
+		rep.Fail("correspondence", "hash:differs-from-model", "MurmurHashLong differs from the model (Golib.HLL.Murmur)",
+			map[string]interface{}{"line": pe.line, "implementation": pe.want, "model": got})
 	case "PACK":
 		rep.Fail("correspondence", "bytes:differ-from-the-packing-of-the-registers", "GetBytes() is not the model's packing (bytesOfRegs) of the pointwise-maximum registers",
 			replayOf(pe.c, map[string]interface{}{"implementation": short(pe.want), "model": short(got)}))
@@ -2129,4 +2142,273 @@ func containerHistories(c *caseT, r *vh.Rng, parts [][]item, add func(pending), 
 			fail("property", "merge:container-modified", bad, rpl(extra))
 		}
 	}
+}
+
+// ---------------------------------------------------------------- histories over several counters
+
+// runHistory executes ops (item form: n:P, o:I:<item>, a:I:J, m:I:J1,J2|-, b:I, g:I) on real counters.
+// After every operation: only the receiver of o/a may have changed (frame), a panicking operation
+// changes nothing and creates nothing, and every counter is the counter of the items that reached it
+// (independent evaluation).  At the end the whole world is compared with the model.
+func runHistory(rep *vh.Report, ops []string, add func(pending), fail func(kind, key, summary string, replay interface{})) {
+	var objs []*hll.HyperLogLog
+	var prec []uint32
+	var ghost [][]uint32 // hashes that reached each counter
+	var mops []string    // model form (hashes)
+	replay := func(at int, extra string) map[string]interface{} {
+		return map[string]interface{}{"history_ops": ops[:at+1], "at": at, "what": extra}
+	}
+	snapshot := func() [][]byte {
+		out := make([][]byte, len(objs))
+		for i, o := range objs {
+			out[i] = o.GetBytes()
+		}
+		return out
+	}
+	for at, op := range ops {
+		f := strings.Split(op, ":")
+		before := snapshot()
+		nBefore := len(objs)
+		target := -1
+		var created *hll.HyperLogLog
+		var createdGhost []uint32
+		var createdPrec uint32
+		expectPanic := false
+		atoi := func(x string) int { v, _ := strconv.Atoi(x); return v }
+		o := vh.Guard(func() {
+			switch f[0] {
+			case "n":
+				createdPrec = uint32(atoi(f[1]))
+				created = hll.NewHyperLogLogInt(createdPrec)
+				mops = append(mops, op)
+			case "o":
+				i := atoi(f[1])
+				it := parseItem(f[2] + ":" + f[3])
+				target = i
+				offer(objs[i], it)
+				ghost[i] = append(ghost[i], hashOf(it))
+				mops = append(mops, fmt.Sprintf("o:%d:%d", i, hashOf(it)))
+			case "a":
+				i, j := atoi(f[1]), atoi(f[2])
+				target = i
+				mops = append(mops, op)
+				expectPanic = prec[i] != prec[j]
+				objs[i].AddAll(objs[j])
+				ghost[i] = append(append([]uint32(nil), ghost[i]...), ghost[j]...)
+			case "m":
+				i := atoi(f[1])
+				mops = append(mops, op)
+				var args []*hll.HyperLogLog
+				g := append([]uint32(nil), ghost[i]...)
+				if f[2] != "-" {
+					for _, js := range strings.Split(f[2], ",") {
+						j := atoi(js)
+						args = append(args, objs[j])
+						g = append(g, ghost[j]...)
+						if prec[j] != prec[i] {
+							expectPanic = true
+						}
+					}
+				}
+				created = objs[i].Merge(args...)
+				createdGhost, createdPrec = g, prec[i]
+			case "b":
+				i := atoi(f[1])
+				mops = append(mops, op)
+				created = hll.BuildHyperLogLog(objs[i].GetBytes())
+				createdGhost, createdPrec = append([]uint32(nil), ghost[i]...), prec[i]
+			case "g":
+				mops = append(mops, op)
+				_ = objs[atoi(f[1])].GetBytes()
+			}
+		})
+		if !o.OK() {
+			created = nil
+			if !expectPanic {
+				fail("property", "history:panic", "operation "+op+" panicked: "+vh.Clip(o.Panic, 160), replay(at, "panic"))
+				return
+			}
+		} else if expectPanic {
+			fail("property", "history:size-mismatch-accepted", "operation "+op+" combined counters of different precision without failing", replay(at, "no panic"))
+			return
+		}
+		// frame
+		for k := 0; k < nBefore; k++ {
+			if k == target && o.OK() {
+				continue
+			}
+			if !bytes.Equal(objs[k].GetBytes(), before[k]) {
+				what := fmt.Sprintf("operation %s changed counter #%d, which is not its receiver", op, k)
+				if !o.OK() {
+					what = fmt.Sprintf("the failing operation %s changed counter #%d", op, k)
+				}
+				fail("property", "history:frame-violated", what, replay(at, what))
+				return
+			}
+		}
+		if created != nil {
+			for k := 0; k < nBefore; k++ {
+				if objs[k] == created {
+					what := fmt.Sprintf("operation %s returned counter #%d instead of a new counter", op, k)
+					fail("property", "history:frame-violated", what, replay(at, what))
+					return
+				}
+			}
+			objs = append(objs, created)
+			prec = append(prec, createdPrec)
+			ghost = append(ghost, createdGhost)
+		}
+		// every counter = the counter of what reached it
+		check := []int{}
+		if target >= 0 && o.OK() {
+			check = append(check, target)
+		}
+		if created != nil {
+			check = append(check, len(objs)-1)
+		}
+		for _, k := range check {
+			if !bytes.Equal(objs[k].GetBytes(), packRegs(prec[k], specRegs(prec[k], ghost[k]))) {
+				what := fmt.Sprintf("after %s counter #%d is not the counter of the items that reached it", op, k)
+				fail("property", "history:state-is-not-the-fold", what, replay(at, what))
+				return
+			}
+		}
+	}
+	final := snapshot()
+	hx := make([]string, len(final))
+	for i, b := range final {
+		hx[i] = vh.Hex(b)
+	}
+	line := "HIST " + vh.List(mops)
+	line = strings.ReplaceAll(line, ",n:", ";n:") // vh.List joins with commas; ops are separated by ';'
+	line = "HIST " + strings.Join(mops, ";")
+	if len(mops) == 0 {
+		line = "HIST -"
+	}
+	add(pending{line: line, want: vh.List(hx), what: "HIST", info: ops, c: &caseT{p: 4, mode: "history"}})
+}
+
+func historySection(env *vh.Env, rep *vh.Report, rng *vh.Rng, add func(pending), fail func(kind, key, summary string, replay interface{})) {
+	n := 300
+	if env.Thorough {
+		n = 3000
+	}
+	for h := 0; h < n; h++ {
+		var ops []string
+		var prec []int
+		ps := []int{4 + rng.Intn(4), 4 + rng.Intn(7)}
+		gens := []func(int) item{newFamily(familyNames[rng.Intn(len(familyNames))], rng), newFamily("small", rng)}
+		nops := 8 + rng.Intn(40)
+		drawn := 0
+		for len(ops) < nops {
+			k := len(prec)
+			pick := func() int { return rng.Intn(k) }
+			switch c := rng.Intn(100); {
+			case k == 0 || (k < 6 && c < 12):
+				p := ps[rng.Intn(2)]
+				if rng.Chance(80) {
+					p = ps[0]
+				}
+				ops = append(ops, fmt.Sprintf("n:%d", p))
+				prec = append(prec, p)
+			case c < 55:
+				it := gens[rng.Intn(2)](drawn)
+				drawn++
+				ops = append(ops, fmt.Sprintf("o:%d:%s", pick(), it.String()))
+			case c < 68:
+				i, j := pick(), pick()
+				if rng.Chance(15) {
+					j = i // AddAll of a counter into itself
+				}
+				ops = append(ops, fmt.Sprintf("a:%d:%d", i, j))
+			case c < 88 && k < 14:
+				i := pick()
+				na := rng.Intn(4)
+				var js []string
+				ok := true
+				for a := 0; a < na; a++ {
+					j := pick()
+					if rng.Chance(25) {
+						j = i // the receiver among the arguments
+					}
+					if a > 0 && rng.Chance(20) {
+						js = append(js, js[a-1]) // the same counter twice
+						continue
+					}
+					if prec[j] != prec[i] {
+						ok = false
+					}
+					js = append(js, strconv.Itoa(j))
+				}
+				arg := "-"
+				if len(js) > 0 {
+					arg = strings.Join(js, ",")
+				}
+				ops = append(ops, fmt.Sprintf("m:%d:%s", i, arg))
+				if ok {
+					for _, x := range js { // a duplicate of a mismatching argument also fails
+						jv, _ := strconv.Atoi(x)
+						if prec[jv] != prec[i] {
+							ok = false
+						}
+					}
+				}
+				if ok {
+					prec = append(prec, prec[i])
+				}
+			case c < 94 && k < 14:
+				i := pick()
+				ops = append(ops, fmt.Sprintf("b:%d", i))
+				prec = append(prec, prec[i])
+			default:
+				ops = append(ops, fmt.Sprintf("g:%d", pick()))
+			}
+		}
+		runHistory(rep, ops, add, fail)
+		rep.Case("history "+strings.Join(ops, ";"), true)
+		rep.Count("history")
+		rep.CountN("history:ops", len(ops))
+		if h < 2 {
+			rep.Sample(map[string]interface{}{"history_ops": ops})
+		}
+	}
+}
+
+// ---------------------------------------------------------------- the hash against the model and the reference
+
+func hashSection(env *vh.Env, rep *vh.Report, rng *vh.Rng, add func(pending), fail func(kind, key, summary string, replay interface{})) {
+	vals := []uint64{0, 1, 2, 255, 4294967295, 4294967296, 4294967297, 1 << 63, 1<<63 | 1, 18446744073709551615,
+		0x0123456789abcdef, 0xdeadbeef00000000, 1234567890123456789, 42 << 32, 42<<32 | 7}
+	n := 1500
+	if env.Thorough {
+		n = 20000
+	}
+	for _, fam := range familyNames {
+		g := newFamily(fam, rng)
+		for i := 0; i < n/len(familyNames); i++ {
+			it := g(i)
+			if !it.wide {
+				// the 32-bit entry point
+				o := uint32(it.v)
+				lib := hll.MurmurHash(o)
+				if lib != refHashLong(uint64(o)) {
+					fail("property", "hash:differs-from-MurmurHash2", fmt.Sprintf("MurmurHash(%d) = %d, MurmurHash2 of the zero-extended item = %d", o, lib, refHashLong(uint64(o))),
+						map[string]interface{}{"p": 4, "items": []string{it.String()}})
+				}
+				add(pending{line: fmt.Sprintf("MH %d", o), want: fmt.Sprint(lib), what: "MH"})
+				continue
+			}
+			vals = append(vals, it.v)
+		}
+	}
+	for _, v := range vals {
+		lib := hll.MurmurHashLong(v)
+		if lib != refHashLong(v) {
+			fail("property", "hash:differs-from-MurmurHash2", fmt.Sprintf("MurmurHashLong(%d) = %d, MurmurHash2 (low word, then high word) = %d", v, lib, refHashLong(v)),
+				map[string]interface{}{"p": 4, "items": []string{item{true, v}.String()}})
+		}
+		add(pending{line: fmt.Sprintf("MH %d", v), want: fmt.Sprint(lib), what: "MH"})
+	}
+	rep.CountN("hash:vs-model-and-reference", n+15)
+	rep.Evaluations += n + 15
 }
